@@ -289,6 +289,13 @@ class CurveFitting(object):
 
         return "{}({}, {})".format(self.__class__.__name__, self._x, self._y)
 
+    def _distinct_x(self):
+        """Number of different abscissae. A fit needs at least as many of them
+        as coefficients; with fewer, the determinant of the normal equations is
+        zero, but its value computed from the rounded sums usually is not."""
+
+        return len(set([float(x) for x in self._x]))
+
     def __len__(self):
         """This method returns the number of value pairs internally stored in
         this object.
@@ -358,7 +365,7 @@ class CurveFitting(object):
         sx2 = self._Q
         d = n * sx2 - sx * sx
 
-        if abs(d) < TOL:
+        if abs(d) < TOL or self._distinct_x() < 2:
             raise ZeroDivisionError("Input data leads to a division by zero")
 
         a = (n * sxy - sx * sy) / d
@@ -395,7 +402,7 @@ class CurveFitting(object):
         q2 = q * q
         d = n * q * s + 2.0 * p * q * r - q2 * q - p * p * s - n * r * r
 
-        if abs(d) < TOL:
+        if abs(d) < TOL or self._distinct_x() < 3:
             raise ZeroDivisionError("Input data leads to a division by zero")
 
         a = (n * q * v + p * r * t + p * q * u
@@ -479,7 +486,7 @@ class CurveFitting(object):
 
         d = m * r * t + 2.0 * p * q * s - m * s * s - r * q * q - t * p * p
 
-        if abs(d) < TOL:
+        if abs(d) < TOL or self._distinct_x() < 3:
             raise ZeroDivisionError("Input data leads to a division by zero")
 
         a = (u * (r * t - s * s) + v * (q * s - p * t)
